@@ -146,10 +146,10 @@ def contract_ckd_state(inst, cls, recorder):
         return True
 
     f = raw
-    f = icontract.ensure(child_appended, error=StateContractBroken)(f)
-    f = icontract.ensure(parent_unchanged, error=StateContractBroken)(f)
-    f = icontract.snapshot(n_children, name="n")(f)
-    f = icontract.snapshot(ident_of, name="ident")(f)
+    f = icontract.ensure(child_appended, error=StateContractBroken, enabled=True)(f)
+    f = icontract.ensure(parent_unchanged, error=StateContractBroken, enabled=True)(f)
+    f = icontract.snapshot(n_children, name="n", enabled=True)(f)
+    f = icontract.snapshot(ident_of, name="ident", enabled=True)(f)
     setattr(cls, "ckd", f)
 
     def undo():
